@@ -82,4 +82,6 @@ pub mod verif {
         InMemRangeConsumer, InMemoryNodePersistence, InMemoryPlanePersistence,
     };
     pub use crate::server::verif::InMemoryPersistence;
+    pub use crate::plane::{PlaneBuilder, PlaneModel};
+    pub use crate::server::verif::RouteTable;
 }
